@@ -192,3 +192,50 @@ def check_dssr(case):
         errs.append(f"DSSR stackings kept {len(got_st)} != expected {len(want_st)} consecutive resolvable members; first diff "
                     f"{next(((g, w) for g, w in itertools.zip_longest(got_st, want_st) if g != w), None)}")
     return errs
+
+
+def check_tool(case):
+    """the command line tool (observe_at: adapter.main): a generated FR3D listing imported next to a corpus structure, written as JSON -
+    the interaction lists of the JSON are what the listing denotes, category by category, in order"""
+    import contextlib, io, json, random, sys
+    from rnapolis import adapter
+    path, seed, n = case
+    rng = random.Random(seed)
+    text, exp = make_listing(rng, n)
+    with tempfile.TemporaryDirectory(prefix="c19-tool-") as d:
+        with open(os.path.join(d, "listing.txt"), "w") as f:
+            f.write(text)
+        argv, buf = sys.argv, io.StringIO()
+        try:
+            sys.argv = ["adapter", path, "--external", os.path.join(d, "listing.txt"), "--tool", "fr3d", "-j", os.path.join(d, "out.json")]
+            with contextlib.redirect_stdout(buf):
+                try:
+                    adapter.main()
+                except SystemExit as e:
+                    if e.code not in (0, None):
+                        return [f"adapter.main exited with status {e.code}"]
+                except Exception as e:
+                    return [f"adapter.main raised {type(e).__name__}: {e}"]
+        finally:
+            sys.argv = argv
+        if not os.path.exists(os.path.join(d, "out.json")):
+            return ["adapter.main wrote no JSON file"]
+        bi = json.load(open(os.path.join(d, "out.json")))["baseInteractions"]
+
+    def ident(r):
+        a = r["auth"]
+        return (a["chain"], a["number"], a["icode"], a["name"])
+    got = {"base-pair": [(i["lw"], ident(i["nt1"]), ident(i["nt2"])) for i in bi["basePairs"]],
+           "stacking": [(i["topology"], ident(i["nt1"]), ident(i["nt2"])) for i in bi["stackings"]],
+           "base-ribose": [(i["br"], ident(i["nt1"]), ident(i["nt2"])) for i in bi["baseRiboseInteractions"]],
+           "base-phosphate": [(i["bph"], ident(i["nt1"]), ident(i["nt2"])) for i in bi["basePhosphateInteractions"]],
+           "other": [(None, ident(i["nt1"]), ident(i["nt2"])) for i in bi["otherInteractions"]]}
+    want = {k: [] for k in got}
+    for cat, cls, a, b in exp:
+        want[cat].append((cls, a, b))
+    errs = []
+    for k in got:
+        if got[k] != want[k]:
+            errs.append(f"tool JSON, category {k}: {len(got[k])} interactions, listing denotes {len(want[k])}; first difference: "
+                        f"{next(((g, w) for g, w in itertools.zip_longest(got[k], want[k]) if g != w), None)}")
+    return errs
